@@ -36,7 +36,17 @@ func (m *Machine) tick() {
 }
 
 // lenOf is "Let lenVal be the result of calling [[Get]] of O with "length"; let len be ToUint32(lenVal)".
-func (m *Machine) lenOf(o *Object) float64 { return float64(m.ToUint32(o.Get("length"))) }
+// Every algorithm that walks (or, in a straightforward implementation, allocates) proportionally
+// to len goes through lenOf and is cut off above LenLimit; push and pop are O(1) and use lenAny.
+func (m *Machine) lenOf(o *Object) float64 {
+	l := m.lenAny(o)
+	if m.LenLimit > 0 && l > m.LenLimit {
+		panic(TooLong{})
+	}
+	return l
+}
+
+func (m *Machine) lenAny(o *Object) float64 { return float64(m.ToUint32(o.Get("length"))) }
 
 // 15.4.1 / 15.4.2 Array(...) and new Array(...)
 func (m *Machine) ArrayConstruct(args []Value) Value {
@@ -155,7 +165,7 @@ func (m *Machine) Join(this Value, args []Value) Value {
 // 15.4.4.6 Array.prototype.pop
 func (m *Machine) Pop(this Value, _ []Value) Value {
 	o := m.ToObject(this)
-	length := m.lenOf(o)
+	length := m.lenAny(o)
 	if length == 0 {
 		m.Put(o, "length", NumV(0), true)
 		return Undefined
@@ -171,7 +181,7 @@ func (m *Machine) Pop(this Value, _ []Value) Value {
 // 15.4.4.7 Array.prototype.push
 func (m *Machine) Push(this Value, args []Value) Value {
 	o := m.ToObject(this)
-	n := m.lenOf(o)
+	n := m.lenAny(o)
 	for _, e := range args {
 		m.tick()
 		m.Put(o, idx(n), e, true)
